@@ -120,33 +120,80 @@ def check_dimacs(text, expr_table, names, mask, free_names):
         if any(x == 0 or abs(x) > V for x in lits):
             return f"literal out of range 1..{V}: {l!r}"
         clauses.append(lits)
-    if V != len(free_names):
-        return f"header declares {V} variables, the expression has {len(free_names)} free symbols"
-    # is there a one-to-one numbering under which the models coincide?
-    idx = {n: i for i, n in enumerate(names)}
-    tabs, _ = spec.input_tables(names)
-    for perm in itertools.permutations(free_names):
-        num = {i + 1: tabs[perm[i]] for i in range(V)}
-        t = mask
-        for cl in clauses:
-            c = 0
-            for lit in cl:
-                c |= num[abs(lit)] if lit > 0 else (mask ^ num[abs(lit)])
-            t &= c
-        if t == expr_table:
+    # the statement: "under a one-to-one numbering of the function's variables, exactly the same satisfying assignments".  The clause set
+    # may declare variables it does not constrain (never more than the function has); the variables it DOES depend on must map one-to-one
+    # onto the argument bits the expression depends on, with the same models.
+    if V > len(names):
+        return f"header declares {V} variables, the function has {len(names)} argument bits"
+    n = len(names)
+
+    def sat(assign):
+        return all(any((assign[abs(x) - 1] == 1) == (x > 0) for x in cl) for cl in clauses)
+
+    rows = [sat([(r >> i) & 1 for i in range(V)]) for r in range(1 << V)]
+    D = [i for i in range(V) if any(rows[r] != rows[r ^ (1 << i)] for r in range(1 << V))]
+    dep = [nm for nm in names if _depends(expr_table, nm, names, mask)]
+    if len(D) != len(dep):
+        return f"the clause set depends on {len(D)} variable(s), the expression on {len(dep)} ({dep})"
+    idx = {nm: i for i, nm in enumerate(names)}
+    for perm in itertools.permutations(dep):
+        ok = True
+        for r in range(1 << len(D)):
+            cr = sum(((r >> k) & 1) << D[k] for k in range(len(D)))
+            er = sum(((r >> k) & 1) << idx[perm[k]] for k in range(len(D)))
+            if rows[cr] != bool((expr_table >> er) & 1):
+                ok = False
+                break
+        if ok:
             return None
     return "no numbering of the variables makes the clause set have the satisfying assignments of the expression"
+
+
+FAM_HEADER = "from qlasskit import *\nfrom typing import Tuple, List\n\n"
+
+
+def job_family(a):
+    """single-function scripts made of the C01 L3 program family (tests / curated / generated), not compiled by the script; each instance under a
+    time budget (sympy's normal forms of large expressions): an instance over budget is skipped, not a verdict"""
+    out = []
+    for origin, src, combos in a:
+        for form, fmt in combos:
+            try:
+                with bounded.time_budget(25):
+                    out += job_bexp((("fam", origin, src), form, fmt, None))
+            except bounded.Budget:
+                pass
+    return out
 
 
 def job_bexp(a):
     si, form, fmt, entry = a[:4]
     io_mode = a[4] if len(a) > 4 else ("stdin", "stdout")
-    names_ = SCRIPTS[si]
     t0 = time.time()
     from qlasskit.tools import py2bexp
     from qlasskit.tools.utils import parse_str
-    text = script_text(names_)
-    label = f"{'+'.join(names_)},form={form},format={fmt},entry={entry}" + ("" if io_mode == ("stdin", "stdout") else f",input={io_mode[0]},output={io_mode[1]}")
+    if isinstance(si, tuple):
+        import hashlib
+        import re
+        _, origin, src = si
+        names_ = [re.match(r"def\s+(\w+)", src).group(1)]
+        text = FAM_HEADER + "@qlassfa(to_compile=False)\n" + src.replace("\t", "    ") + "\n"
+        label = f"family,{origin},{hashlib.sha1(src.encode()).hexdigest()[:8]},form={form},format={fmt}"
+        try:    # only accepted programs with <= 8 argument bits (DIMACS: <= 5 bits the conjunction depends on)
+            qf0 = dict(parse_str(text)).get(names_[0])
+            if qf0 is None or not hasattr(qf0, "expressions") or len(bounded.input_names(qf0)) > 8:
+                return []
+            in0, want0, mask0 = ret_conjunction_table(qf0)
+            if fmt == "dimacs" and sum(_depends(want0, n, in0, mask0) for n in in0) > 5:
+                return []
+        except bounded.Budget:
+            raise
+        except Exception:  # noqa   rejected program: not a script "containing compiled functions"
+            return []
+    else:
+        names_ = SCRIPTS[si]
+        text = script_text(names_)
+        label = f"{'+'.join(names_)},form={form},format={fmt},entry={entry}" + ("" if io_mode == ("stdin", "stdout") else f",input={io_mode[0]},output={io_mode[1]}")
     name = f"C17.py2bexp.main[{label}]"
     base = dict(strength="bounded", backend="truth-table")
     argv = ["py2bexp"]
@@ -177,6 +224,8 @@ def job_bexp(a):
             printed = open(op_).read()
     except SystemExit as ex:
         return [res(name, REFUTED, replayed=True, replay=dict(argv=argv, script=text, observed=f"SystemExit {ex.code}"), **base)]
+    except bounded.Budget:
+        raise
     except Exception as ex:  # noqa
         return [res(name, REFUTED, replayed=True, replay=dict(argv=argv, script=text, observed=f"raises {type(ex).__name__}: {ex}"[:300]), **base)]
     # which function must have been selected?
@@ -311,12 +360,18 @@ def run(tier, only=None):
                 jobs.append((job_bexp, (si, form, fmt, None, mode)))
     for sh in DIMACS_SHAPES:
         jobs.append((job_dimacs, (sh,)))
+    from . import c01_l3
+    fam = [x for x in c01_l3.family(tier) if x[0] != "outside" and "Q." not in x[1] and "Parameter[" not in x[1]]
+    allc = [(f, t) for f in FORMS for t in FORMATS]
+    items = [(o, src, allc if tier == "thorough" else [allc[(2 * i) % 10], allc[(2 * i + 5) % 10]]) for i, (o, src) in enumerate(fam)]
+    for lo in range(0, len(items), 6):
+        jobs.append((job_family, items[lo:lo + 6]))
     rep.add(run_pool(_dispatch, jobs, chunksize=2))
     rep.under_contract(py2bexp.convert_to_bool_expression, py2bexp.convert_to_dimacs, py2bexp.output_result, py2bexp.main, py2qasm.convert_to_quasm, py2qasm.main,
                        utils.parse_str, utils.parse_file, tools.find_last_qlassf)
     rep.rule = "one evaluation = one CLI invocation (in-process, patched argv/stdin/stdout) or one convert_to_dimacs call; printed text parsed back and compared on all assignments"
     rep.extra.update(bounded=dict(family=f"{len(SCRIPTS)} scripts (1-3 functions; single literal / negated literal / constant / single clause / shared intermediate / Qint / tuple returns) x 5 forms x 2 formats x entry points; "
-                                         f"{len(DIMACS_SHAPES)} CNF skeleton shapes for convert_to_dimacs; py2qasm x versions x compilers", bound="scripts listed in vlib/props/c17.py", all_values=True))
+                                         f"{len(DIMACS_SHAPES)} CNF skeleton shapes for convert_to_dimacs; py2qasm x versions x compilers; the C01 L3 program family (<= 8 argument bits; DIMACS <= 5) as single-function scripts x forms x formats (quick: 2 combinations per program)", bound="scripts listed in vlib/props/c17.py", all_values=True))
     rep.assumptions = ["the printed sympy text is parsed back by a 30-line reader (names with dots are mapped to symbols)", "DIMACS: existence of a one-to-one numbering is decided by trying every permutation (<= 4 variables)",
                        "py2qasm output is compared with QasmExporter on the same compiled function; the QASM contract itself is C13's", "bounded family"]
     rep.explanation = "contracts of the CLI printers checked end to end on a bounded family of scripts; every printed artefact is read back and compared with the library's own expressions on all assignments"
